@@ -344,6 +344,36 @@ static int cb_valid2(cfg_t *cfg, cfg_opt_t *opt, void *value)
 }
 
 
+/* streams that cannot be read: 0 = a directory opened for reading, 1 = a stream opened for writing only,
+ * 2 = a stream that delivers `s = "abc` and then fails (the failure strikes inside a string) */
+static const char cookie_text[] = "s = \"abc";
+static ssize_t cookie_read(void *c, char *buf, size_t n)
+{
+	size_t *pos = c, left = sizeof cookie_text - 1 - *pos;
+
+	if (left == 0) {
+		errno = EIO;
+		return -1;
+	}
+	if (n > left)
+		n = left;
+	memcpy(buf, cookie_text + *pos, n);
+	*pos += n;
+	return (ssize_t)n;
+}
+static size_t cookie_pos;
+static FILE *failing_stream(int kind)
+{
+	cookie_io_functions_t io = { cookie_read, NULL, NULL, NULL };
+
+	if (kind == 0)
+		return fopen(".", "r");
+	if (kind == 1)
+		return fopen("/dev/null", "w");
+	cookie_pos = 0;
+	return fopencookie(&cookie_pos, "r", io);
+}
+
 static int cb_func(cfg_t *cfg, cfg_opt_t *opt, int argc, const char **argv)
 {
 	int i, fail = failing();
@@ -380,6 +410,20 @@ static int cb_func(cfg_t *cfg, cfg_opt_t *opt, int argc, const char **argv)
 		}
 		free(saved);
 		free(text);
+	}
+	/* "nestpse<k>": the callback parses a stream that cannot be read (kind k) into context 1: whatever became of that
+	 * parse, the one that called it reads on as if nothing had happened */
+	if (argc > 0 && !strncmp(argv[0], "nestpse", 7) && ctx[1] && ctx[1] != cfg) {
+		FILE *f = failing_stream(argv[0][7] ? argv[0][7] - '0' : 0);
+		int rc = -9;
+
+		in_nest++;
+		if (f) {
+			rc = cfg_parse_fp(ctx[1], f);
+			fclose(f);
+		}
+		in_nest--;
+		fprintf(obs, "T nest %d\n", rc);
 	}
 	/* "free2": the callback frees another (root) context while the parse that called it is still running */
 	if (argc > 0 && !strcmp(argv[0], "free2") && ctx[2] && ctx[2] != cfg) {
@@ -1106,19 +1150,20 @@ static void run_line(char *line)
 		free(t2);
 	} else if (!strcmp(w[0], "PSE") && n == 3) {
 		/* cfg_parse_fp() on a stream that cannot be read: 0 = a directory opened for reading, 1 = a stream opened for writing */
-		FILE *f = atoi(w[2]) ? fopen("/dev/null", "w") : fopen(".", "r");
+		FILE *f;
 		int rc = -9, fds0;
 		char tail[64];
 
 		NEEDCTX(1);
 		fds0 = count_fds();
+		f = failing_stream(atoi(w[2]));
 		op_begin();
 		if (f) {
 			rc = cfg_parse_fp(CTX(1), f);
 			fclose(f);
 		}
 		snprintf(rbuf, sizeof rbuf, "R %d\n", rc);
-		snprintf(tail, sizeof tail, "I %d %d\n", cfg_include_stack_ptr, count_fds() - fds0 + (f ? 1 : 0));
+		snprintf(tail, sizeof tail, "I %d %d\n", cfg_include_stack_ptr, count_fds() - fds0);
 		op_end_r(rbuf, tail);
 	} else if (n == 5 && strlen(w[0]) == 2 && (w[0][0] == 'S' || w[0][0] == 'O') && strchr("IFBS", w[0][1])) {
 		char *p = unhex(w[2], NULL);
